@@ -144,9 +144,17 @@ func runTArray(c *load.Ctx, r *report.RuleResult) {
 					}
 					continue
 				}
+				early := ""
+				for _, ef := range o.Effects {
+					if strings.HasPrefix(ef, "count-rule ") {
+						early = strings.TrimPrefix(ef, "count-rule ")
+					}
+				}
 				switch {
 				case o.Panicked:
 					r.Bad(key, pos, "rejected: "+o.Exit())
+				case early != "":
+					r.Bad(key, pos, "an item-count rule ("+early+") is evaluated when an item begins: the count is final only at the end of the array, and an error raised here is reported at the item instead of at the array's end")
 				case !strings.Contains(ret, "validators(child(n))"):
 					r.Bad(key, pos, "the element is not checked against the example element at the running index n: "+ret)
 				case counter != "‹n+1›":
